@@ -15,6 +15,8 @@ type ModSet struct {
 	CellVals        map[ssa.Value]bool // Allocs stored to (for loop havoc)
 	FreeVarsWritten map[*ssa.FreeVar]bool
 	Why             string
+	knownParams     map[*ssa.Function]bool // callees whose function-typed parameters are known closures at the call site
+	loopScan        bool // computing a loop's mod-set: objects allocated before the loop are not fresh
 }
 
 func newModSet() *ModSet {
@@ -48,12 +50,31 @@ func (x *Run) modFunc(fn *ssa.Function, ms *ModSet, seen map[*ssa.Function]bool,
 func (x *Run) modStoreTarget(addr ssa.Value, ms *ModSet) {
 	switch a := addr.(type) {
 	case *ssa.FieldAddr:
+		// nested by-value structs live inside the outermost heap field
+		for {
+			inner, ok := a.X.(*ssa.FieldAddr)
+			if !ok {
+				break
+			}
+			a = inner
+		}
 		pt := a.X.Type().Underlying().(*types.Pointer).Elem()
+		if al, ok := a.X.(*ssa.Alloc); ok {
+			if !isStruct(al.Type().(*types.Pointer).Elem()) {
+				ms.CellVals[al] = true
+			} else if !ms.loopScan {
+				// a write to an object allocated by this very function: objects that
+				// existed before the call are unaffected
+				return
+			}
+		}
 		x.modField(pt, a.Field, ms)
 	case *ssa.Alloc:
 		el := a.Type().(*types.Pointer).Elem()
 		if isStruct(el) {
-			x.modWholeStruct(el, ms)
+			if ms.loopScan {
+				x.modWholeStruct(el, ms)
+			}
 		} else {
 			ms.CellVals[a] = true
 		}
@@ -88,10 +109,6 @@ func (x *Run) modField(structTy types.Type, field int, ms *ModSet) {
 		return
 	}
 	ft := stt.Field(field).Type()
-	if isStruct(ft) {
-		x.modWholeStruct(ft, ms)
-		return
-	}
 	if x.d.sortOf(ft) == SUnit {
 		return
 	}
@@ -126,13 +143,18 @@ func (x *Run) modInstr(ins ssa.Instruction, ms *ModSet, seen map[*ssa.Function]b
 	case *ssa.MapUpdate:
 		x.modMap(i.Map.Type(), ms)
 	case *ssa.MakeMap:
-		x.modMap(i.Type(), ms)
+		// a new map's rows: maps that existed before are unaffected
+		if ms.loopScan {
+			x.modMap(i.Type(), ms)
+		}
 	case *ssa.MakeChan:
-		ms.Arrs[x.chClosedArr(i.Type())] = true
-		ms.Arrs[x.chCapArr()] = true
+		if ms.loopScan {
+			ms.Arrs[x.chClosedArr(i.Type())] = true
+			ms.Arrs[x.chCapArr()] = true
+		}
 	case *ssa.Alloc:
 		el := i.Type().(*types.Pointer).Elem()
-		if isStruct(el) {
+		if isStruct(el) && ms.loopScan {
 			x.modWholeStruct(el, ms)
 		}
 	case *ssa.Call:
@@ -192,7 +214,10 @@ func (x *Run) modCall(cc *ssa.CallCommon, ms *ModSet, seen map[*ssa.Function]boo
 	}
 	if fn == nil {
 		// dynamic function value: unknown
-		if _, isParamOrField := cc.Value.(*ssa.Parameter); isParamOrField {
+		if prm, isParamOrField := cc.Value.(*ssa.Parameter); isParamOrField {
+			if ms.knownParams[prm.Parent()] {
+				return
+			}
 			ms.Top = true
 			ms.Why = "dynamic call of parameter"
 			return
@@ -223,6 +248,35 @@ func (x *Run) modCall(cc *ssa.CallCommon, ms *ModSet, seen map[*ssa.Function]boo
 			return
 		}
 		seen[fn] = true
+		// function-typed arguments that are closures created at the call site:
+		// their effects are included, and the callee's calls of those
+		// parameters are then not "unknown"
+		allKnown := true
+		for _, a := range cc.Args {
+			if _, isSig := types.Unalias(a.Type()).Underlying().(*types.Signature); !isSig {
+				continue
+			}
+			switch c := a.(type) {
+			case *ssa.MakeClosure:
+				if cf, ok := c.Fn.(*ssa.Function); ok && !seen[cf] {
+					seen[cf] = true
+					x.modFunc(cf, ms, seen, depth+1)
+				}
+			case *ssa.Function:
+				if !seen[c] {
+					seen[c] = true
+					x.modFunc(c, ms, seen, depth+1)
+				}
+			default:
+				allKnown = false
+			}
+		}
+		if allKnown {
+			if ms.knownParams == nil {
+				ms.knownParams = map[*ssa.Function]bool{}
+			}
+			ms.knownParams[fn] = true
+		}
 		x.modFunc(fn, ms, seen, depth+1)
 		return
 	}
